@@ -4,9 +4,9 @@ import itertools
 ID = "C10"
 HARNESSES = [dict(name="ha", pkg="./pkg/ha/", test="TestVerifC10", timeout=900,
                   files=[("pkg/ha/zz_verif_c10_test.go", "harness/C10/zz_verif_c10_test.go")])]
-# repaired first (full theorems), then what /repo does today, then each defect alone (so that a tree
-# with only one of the two fix patches applied is still recognised)
-VARIANTS = ["repaired", "defective", "def_hb", "def_if"]
+# repaired first (full theorems), then every combination of the three recorded defects ("defective" = all
+# three = /repo today), so that a tree with only some of the fix patches applied is still recognised
+VARIANTS = ["repaired", "def_hb", "def_if", "def_fc", "def_hb_if", "def_hb_fc", "def_if_fc", "defective"]
 MODEL_NEEDS_IMPL = False
 
 RULE = ("case = configuration of both nodes (node-id order, priority, preempt, decrement, #tracked interfaces) + "
@@ -166,16 +166,25 @@ def classify(case, impl, model):
                  % (i, op, xi, yi))
 
 
+SIG = {"hb": "dual-standby-no-promotion", "if": "ifdown-notification-count", "fc": "first-heartbeat-only-recorded"}
+
+
 def signature(case, impl, models):
-    hb = impl == models.get("def_hb")
-    iff = impl == models.get("def_if")
-    if hb:
-        return "dual-standby-no-promotion"
-    if iff:
-        return "ifdown-notification-count"
-    if impl == models.get("defective"):
-        return "dual-standby-no-promotion+ifdown-notification-count"
-    return None
+    """vlib calls this only when the whole implementation line equals one non-repaired variant, i.e. the history
+    is fully explained by the recorded defects.  The signature names the defect behind the FIRST divergence from
+    the repaired model (the single-defect variant that reproduces the implementation up to and including it)."""
+    d = _first_diff(impl, models["repaired"])
+    if d is None:
+        return None
+    i = d[0]
+    it = impl.split(" ")[:i + 1]
+    for k in ("hb", "if", "fc"):
+        if models.get("def_" + k, "").split(" ")[:i + 1] == it:
+            return SIG[k]
+    for k in ("hb_if", "hb_fc", "if_fc"):
+        if models.get("def_" + k, "").split(" ")[:i + 1] == it:
+            return "+".join(SIG[x] for x in k.split("_"))
+    return "+".join(SIG.values())
 
 
 def shrink(case):
